@@ -28,6 +28,7 @@ def sources(seed, tier):
     src = progs.all_programs(seed, n)
     if tier == "quick":
         rnd = random.Random(seed); rnd.shuffle(src); src = src[:1200]
+    src += progs.nested_scope_programs(seed, 300 if tier == "quick" else 5000)
     files = progs.repo_py_files(vlib.REPO)
     src += [t for _, t in files]
     # failing compilations interleaved with everything else
@@ -77,7 +78,7 @@ def check(res):
     ok = not bad and not missing and not cross and rc1 == 0
     res.oblige("search/correspondence: %d sources x (64 sequential repetitions interleaved with other and failing compilations + 16 concurrent goroutines + 3 processes): identical deep dumps" % len(srcs), ok, str(bad[:1] or missing[:3] or cross[:3] or err1))
     res.coverage.update(evaluations=len(srcs) * (64 + 16 + 3), distinct_nontrivial=sum(1 for s in srcs if "def " in s or "class " in s or "lambda" in s), programs=len(srcs),
-        rule="every generator of the other properties (control flow, nesting, cleanup, scope, generator histories, consumers, container histories) + every .py file under /repo (%d) + failing compilations interleaved (syntax errors inside nested scopes); each compiled 64 times sequentially with other compilations in between, once from each of 16 goroutines, and in 3 separate processes; recursive dump of code, consts, names, varnames, freevars, cellvars, cell2arg, flags, stacksize, firstlineno, lnotab, name, filename; non-trivial = has a nested scope" % nfiles,
+        rule="every generator of the other properties (control flow, nesting, cleanup, scope, generator histories, consumers, container histories) + nested-scope programs (random and systematic def/class/lambda/comprehension nestings with shared names) + every .py file under /repo (%d) + failing compilations interleaved (syntax errors inside nested scopes); each compiled 64 times sequentially with other compilations in between, once from each of 16 goroutines, and in 3 separate processes; recursive dump of code, consts, names, varnames, freevars, cellvars, cell2arg, flags, stacksize, firstlineno, lnotab, name, filename; non-trivial = has a nested scope" % nfiles,
         samples=[dict(source=srcs[5][:200])], distribution=dict(sources=len(srcs), repo_files=nfiles, failing=sum(1 for s in srcs if s in FAILING)),
         modelled_not_verified=["the parser tables (y.go) and the assembler are covered by the harness only", "aliasing writes into package-level tables"])
     if bad or cross:
